@@ -134,6 +134,15 @@ def rule_r1(chk, p, t):
                 rets = [n for n in walk_no_nested(m.node) if isinstance(n, ast.Return)]
                 if not rets or unparse(rets[-1].value) != "final_states[..., 1:]":
                     bad.append(f"return `{unparse(rets[-1].value) if rets else None}`")
+            # the (6, K) batch is flattened and restored in C (row-major) order - what the derivative's index arithmetic
+            # assumes; memory order ("K" / "A") or column-major ("F") scramble a transposed / Fortran-ordered batch
+            for cc in walk_no_nested(m.node):
+                if isinstance(cc, ast.Call) and call_name(cc) in ("ravel", "flatten", "reshape", "asarray", "array", "copy"):
+                    for k in cc.keywords:
+                        if k.arg == "order" and not (isinstance(k.value, ast.Constant) and k.value.value in ("C", None)):
+                            bad.append(f"`{unparse(cc)[:60]}` flattens / reshapes in order {unparse(k.value)}, not in C order")
+                    if call_name(cc) in ("ravel", "flatten") and isinstance(cc.func, ast.Attribute) and cc.args and not (isinstance(cc.args[0], ast.Constant) and cc.args[0].value in ("C",)):
+                        bad.append(f"`{unparse(cc)[:60]}` flattens in order {unparse(cc.args[0])}, not in C order")
             if bad:
                 r.violation(f"{CEL}.{nm}", "restart-layout:" + ";".join(bad), f"{nm}: " + "; ".join(bad), m.loc())
             else:
@@ -628,7 +637,7 @@ def propagate_loop_facts(prop):
     y0 = sol.args[2]
     X = None
     if isinstance(y0, ast.Call) and isinstance(y0.func, ast.Attribute) and y0.func.attr in ("ravel", "flatten") and isinstance(y0.func.value, ast.Name):
-        X = y0.func.value.id
+        X = y0.func.value.id  # (the order argument is judged by the caller)
     else:
         layout.append(f"initial state passed as `{unparse(y0)[:60]}`")
     ev = kws.get("events")
